@@ -26,6 +26,7 @@ import random
 import struct
 
 from .. import import_asyncssh, apps, scen, vloop, hostile, refpeer, \
+    openssh, \
     refssh as R, work
 
 asyncssh = import_asyncssh()
@@ -49,7 +50,7 @@ OUT_OF_REACH = ['GSS messages', 'SOCKS and agent parsers are exercised in '
                 'C20/C05 workloads, not fuzzed here']
 REQUIRED = ['raw_inputs', 'peer_messages', 'parser_calls',
             'meter_windows', 'bystander_checked', 'owner_checked',
-            'extreme_fields', 'impossible_keys']
+            'extreme_fields', 'impossible_keys', 'sftp_extreme_requests']
 BUDGET_S = {'quick': 300, 'thorough': 3400}
 CASE_TIMEOUT_S = 60
 
@@ -107,6 +108,12 @@ def gen_cases(tier, seed):
                       'app': rng.choice(['echo', 'writer']),
                       'chunk': rng.choice(['all', 'record', 'random']),
                       'cseed': rng.randrange(1 << 30)})
+
+    # SFTP requests whose offset / length / size fields are extreme
+    nsftp = 60 if tier == 'quick' else 1500
+    for i in range(nsftp):
+        cases.append({'kind': 'sftp', 'version': rng.choice([3, 3, 4, 6]),
+                      'n': 8, 'cseed': rng.randrange(1 << 30)})
 
     for i in range(npar):
         cases.append({'kind': 'parser', 'n': 250 if tier == 'quick' else 400,
@@ -508,7 +515,8 @@ def _t_srv_silent(rng, ctx):
        (timeout / cancel) and the connection ends afterwards"""
 
     return [('never_confirm', rng.choice(['server_close', 'client_close',
-                                          'server_abort']))], \
+                                          'server_abort']),
+             rng.choice(['open', 'global']))], \
         {'silent_open': True}
 
 
@@ -747,7 +755,16 @@ def _run_peer(case, mon, viol, info):
                         result['conn'] = conn
                         if info.get('silent_open'):
                             try:
-                                await asyncio.wait_for(conn.run('x'), 0.5)
+                                if msgs[0][2] == 'global':
+                                    # a want-reply global request that is
+                                    # never answered
+                                    await asyncio.wait_for(
+                                        conn.forward_remote_port(
+                                            '127.0.0.1', 0, '127.0.0.1', 7),
+                                        0.5)
+                                else:
+                                    await asyncio.wait_for(conn.run('x'),
+                                                           0.5)
                             except asyncio.TimeoutError:
                                 result['gave_up'] = True
                             if msgs[0][1] == 'client_close':
@@ -1026,6 +1043,163 @@ def _call(name, fn, data, allowed, meter, mon, viol, stats, mech=None):
         meter.armed = False
 
 
+_EXT64 = [0, 1, 999, 1000, 1001, 69999, 70001, 2 ** 31, 2 ** 32 - 1,
+          2 ** 32, 2 ** 63 - 1, 2 ** 63, 2 ** 64 - 1]
+
+
+def _run_sftp(case, mon, viol, info):
+    """Extreme numeric fields in SFTP requests to a real SFTPServer: one
+       reply each, bounded work, the session and its neighbours survive"""
+
+    import shutil
+    import struct
+    from .. import sftpref as F, fsmon
+    rng = random.Random(case['cseed'])
+    version = case['version']
+    tmp = openssh.tmpdir('vf-c10s-')
+    root = os.path.join(tmp, 'root')
+    os.makedirs(root)
+    with open(os.path.join(root, 'f.txt'), 'wb') as f:
+        f.write(apps.stream_bytes(('c10', 1), 1000))
+    with open(os.path.join(root, 'big'), 'wb') as f:
+        f.write(apps.stream_bytes(('c10', 2), 70000))
+    meter = work.WorkMeter()
+
+    def u32(n):
+        return struct.pack('>I', n & 0xffffffff)
+
+    def u64(n):
+        return struct.pack('>Q', n & 0xffffffffffffffff)
+
+    def sstr(b):
+        return u32(len(b)) + b
+
+    async def main(loop):
+        class Srv(apps.RecServer):
+            def session_requested(self):
+                from asyncssh.stream import SSHServerStreamSession
+                return SSHServerStreamSession(
+                    None, lambda chan: asyncssh.SFTPServer(chan,
+                                                           chroot=root),
+                    version)
+
+        async with scen.Env(loop, server_factory=lambda: Srv(
+                apps.EventLog()), chunking='all', seed=case['cseed']) as env:
+            conn = await env.connect()
+            cli = F.RawSFTPClient(conn)
+            await cli.start(version)
+            rid = [10]
+
+            async def rq(t, body):
+                rid[0] += 1
+                n0 = len(cli.responses)
+                meter.new_input(len(body) + 9)
+                cli.send(t, u32(rid[0]) + body)
+                await env.settle()
+                mon['peer_messages'] += 1
+                got = [(tt, b) for tt, r, b in cli.responses[n0:]
+                       if r == rid[0]]
+                return got
+
+            a3 = u32(0) if version <= 3 else u32(0) + b'\x05'
+
+            async def open_(path, flags):
+                body = sstr(path) + (u32(flags) if version < 5 else
+                                     u32(0x7) + u32(flags)) + a3
+                got = await rq(F.FXP_OPEN, body)
+                if got and got[0][0] == F.FXP_HANDLE:
+                    return F.Rd(got[0][1]).str()
+                return None
+
+            env.hostile_dir = 'c2s'
+            _attach_meter(env, meter, 0)
+            meter.install()
+            try:
+                with fsmon.window([root]):
+                    if version < 5:
+                        rh = await open_(b'/big', 0x1)
+                        wh = await open_(b'/out', 0x1 | 0x2 | 0x8)
+                    else:
+                        rh = await open_(b'/big', 0x3)          # open existing
+                        wh = await open_(b'/out', 0x1)          # create/trunc
+                    info['handles'] = (bool(rh), bool(wh))
+                    if rh is None:
+                        return
+                    for _ in range(case['n']):
+                        k = rng.choice(['read', 'read', 'copy', 'copy',
+                                        'copy', 'write', 'fsetstat', 'hash',
+                                        'block'])
+                        a, b, c = (rng.choice(_EXT64) for _ in range(3))
+                        if k == 'read':
+                            t, body = F.FXP_READ, sstr(rh) + u64(a) + u32(b)
+                        elif k == 'write':
+                            if wh is None:
+                                continue
+                            t, body = F.FXP_WRITE, sstr(wh) + \
+                                u64(rng.choice([0, 1, 2 ** 63 - 1,
+                                                2 ** 64 - 1])) + sstr(b'xy')
+                        elif k == 'copy':
+                            if wh is None:
+                                continue
+                            t = F.FXP_EXTENDED
+                            body = sstr(b'copy-data') + sstr(rh) + u64(a) + \
+                                u64(b) + sstr(wh) + \
+                                u64(rng.choice([0, 100]))
+                        elif k == 'fsetstat':
+                            if wh is None:
+                                continue
+                            t = F.FXP_FSETSTAT
+                            body = sstr(wh) + (u32(1) if version <= 3 else
+                                               u32(1) + b'\x01') + u64(a)
+                        elif k == 'hash':
+                            t = F.FXP_EXTENDED
+                            body = sstr(rng.choice([b'check-file-handle',
+                                                    b'md5-hash-handle'])) + \
+                                sstr(rh) + sstr(b'md5,sha256') + u64(a) + \
+                                u64(b) + u32(rng.choice([0, 255, 256,
+                                                         2 ** 32 - 1]))
+                        else:
+                            t = F.FXP_BLOCK
+                            body = sstr(rh) + u64(a) + u64(b) + u32(1)
+                        got = await rq(t, body)
+                        mon['extreme_fields'] += 1
+                        mon['sftp_extreme_requests'] += 1
+                        info['last'] = (k, a, b)
+                        if cli.closed.is_set():
+                            viol.append({
+                                'mechanism': 'sftp_session_ended_by_request',
+                                'detail': f'v{version} {k} fields {a} {b}'})
+                            break
+                        if len(got) != 1:
+                            viol.append({
+                                'mechanism': 'sftp_reply_count',
+                                'detail': f'v{version} {k} fields {a} {b}: '
+                                          f'{len(got)} replies'})
+                            break
+            finally:
+                meter.disarm()
+                meter.uninstall()
+            mon['meter_windows'] += meter.windows
+            for v in meter.violations:
+                viol.append({'mechanism': 'sftp_request_work_unbounded',
+                             'detail': {**v, 'last': info.get('last')}})
+            conn.abort()
+            await env.settle()
+            for ev in env.san.drain():
+                viol.append({'mechanism': 'sanitizer_' + ev['kind'],
+                             'detail': ev})
+
+    try:
+        scen.run(main)
+    finally:
+        # a work-budget interrupt leaves main() suspended inside the window
+        fsmon.reset()
+        if meter.installed:
+            meter.uninstall()
+        info['max_calls'] = meter.max_calls_per_input
+        shutil.rmtree(tmp, ignore_errors=True)
+
+
 def run_case(case):
     mon = {k: 0 for k in REQUIRED}
     viol = []
@@ -1033,6 +1207,8 @@ def run_case(case):
     try:
         if case['kind'] == 'raw':
             _run_raw(case, mon, viol, info)
+        elif case['kind'] == 'sftp':
+            _run_sftp(case, mon, viol, info)
         elif case['kind'] == 'peer':
             _run_peer(case, mon, viol, info)
         else:
@@ -1041,6 +1217,8 @@ def run_case(case):
         viol.append({'mechanism': 'hang', 'detail': str(exc)})
     except work.WorkBudgetExceeded:
         mech = 'work_budget_exceeded'
+        if case['kind'] == 'sftp':
+            mech = 'sftp_request_work_unbounded'
         if case.get('peer_kw') and 1 in (info.get('maxpkt'),
                                          info.get('confirm_maxpkt')):
             mech = 'zero_max_packet_size_spin_dropbear_workaround'
